@@ -1381,7 +1381,13 @@ def classify(what):
 
 
 def match_info(case, what):
-    return {"failure": classify(what), "tf_mode": case["tf_mode"], "link_type": case["link_type"], "sd_family": case.get("sd_family", "plain"), "engine": case["engine"]}
+    import re
+
+    info = {"failure": classify(what), "tf_mode": case["tf_mode"], "link_type": case["link_type"], "sd_family": case.get("sd_family", "plain"), "engine": case["engine"]}
+    # finding K14: k >= 2 new records without unique_id all receive the literal id 'no_id_provided'; every pair comes back k times
+    m = re.search(r"with (\d+) new record\(s\) lacking (\S+) returned (\d+) rows; .* = (\d+) pairs", what)
+    info["several_new_records_share_the_no_id_literal"] = bool(m and int(m.group(1)) >= 2 and m.group(2) in ("uid", "both") and int(m.group(3)) == int(m.group(1)) * int(m.group(4)))
+    return info
 
 
 def run(ctx: core.Ctx):
